@@ -18,7 +18,7 @@ func init() {
 		Cases: func(tier string) int {
 			switch tier {
 			case "thorough":
-				return 250000
+				return 600000
 			case "race":
 				return 4000
 			}
